@@ -653,9 +653,17 @@ func (f *simFile) writeAtNoLimit(p []byte, off int64) (int, error) {
 		if !f.n.dead {
 			d.used += grow
 		}
-		nd := make([]byte, end)
-		copy(nd, f.n.data)
-		f.n.data = nd
+		if int64(cap(f.n.data)) >= end {
+			old := len(f.n.data)
+			f.n.data = f.n.data[:end]
+			for i := int64(old); i < off; i++ {
+				f.n.data[i] = 0
+			}
+		} else {
+			nd := make([]byte, end, end+end/2+64)
+			copy(nd, f.n.data)
+			f.n.data = nd
+		}
 	}
 	copy(f.n.data[off:], p)
 	f.n.mtime = time.Now()
